@@ -936,9 +936,8 @@ fn read_block<R: Read + Seek>(mut reader: R, block: &Block) -> Result<Buffer, Ar
     let metadata_len = block.metaDataLength().to_usize().ok_or_else(invalid)?;
     let total_len = body_len.checked_add(metadata_len).ok_or_else(invalid)?;
 
-    let mut buf = MutableBuffer::try_from_len_zeroed(total_len)
-        .map_err(|e| ArrowError::MemoryError(e.to_string()))?;
-    reader.read_exact(&mut buf)?;
+    // the lengths are untrusted: do not reserve them before the bytes have arrived
+    let buf = read_body_bounded(&mut reader, total_len)?;
     Ok(buf.into())
 }
 
